@@ -21,6 +21,15 @@ CLAIMED = {
             "is raised. Loop guards/reset/execute are regenerated from source; the loop skeleton is shape-checked "
             "and differentially tested. Oracle on the real machine: wf predicate, watched code[] indices.",
             "trusted: as C01 plus Model/Run.v, Spec/Wf.v; debugger histories are not yet in this check's model"),
+    "C05": ("Coq theorems closed by complete enumeration inside the kernel (all 65536 words; every valid operand "
+            "tuple of every real instruction): assemble gives the word of the hand-written HERA encoding table, "
+            "disassemble inverts it, distinct instructions never share a word, every word decodes to the "
+            "instruction that re-assembles to it or is reported unknown (and then no valid instruction has that "
+            "word), integers outside 0..0xFFFF are rejected. BITV patterns, class order and override lists are "
+            "regenerated from hera/op.py; the bit-pattern machinery is a hand model tied by correspondence "
+            "(complete in the thorough tier).",
+            "trusted: Coq kernel + vm_compute, Spec/EncTable.v, Model/Bitvec.v (hand model, differential), "
+            "tools/translate tables"),
 }
 
 checks = []
